@@ -157,6 +157,265 @@ def grow_copies_whole_heap(m):
     return False, "no memcpy of the old heap"
 
 
+def layout_rules(rep, r5, m, clear_only=False):
+    """Storage layout agreement of initialize / grow / clear (R-C02-5); `clear_only` for the event-queue view (C01)."""
+    hh = {f.name: f for f in m.funcs.values() if m.rel(f.file) == UNIT}
+    g = hh["hashheap_grow"]
+    gcx = FuncCtx(m, g)
+    from ..engines.induct import Poly
+    HEAP_T, HASH_T = "sizeof(struct cmi_heap_tag)", "sizeof(struct cmi_hash_tag)"
+
+    class SizeEval:
+        """Byte/element counts as polynomials over HS (heap size now), HS0 (before this function's update), HSINIT."""
+
+        def __init__(self, f):
+            self.f, self.cx, self.hp = f, FuncCtx(m, f), f.params[0]["name"]
+            self.top = kids(f.body)
+            def store_idx(field):
+                idx = [inv.stmt_index_containing(f, n_) for l, r_, k_, n_ in inv.stores(f)
+                       if self.cx.canon(l) == "%s->%s" % (self.hp, field)]
+                idx = [i for i in idx if i is not None]
+                return min(idx) if idx else None
+            self.i_exp, self.i_hs, self.i_hash = store_idx("heap_exp_cur"), store_idx("heap_size"), store_idx("hash_size")
+            # in initialize the exponent parameter becomes the current exponent
+            self.exp_params = {self.cx.canon(r_) for l, r_, k_, n_ in inv.stores(f)
+                               if r_ is not None and self.cx.canon(l) == "%s->heap_exp_cur" % self.hp and k_ == "="}
+            self.is_init = any(k_ == "=" for l, r_, k_, n_ in inv.stores(f) if self.cx.canon(l) == "%s->heap_exp_cur" % self.hp)
+
+        def pos_of(self, node):
+            i = inv.stmt_index_containing(self.f, node)
+            return i if i is not None else 10 ** 6
+
+        def size_atom(self, which):
+            return Poly.sym({"now": "HS", "old": "HS0", "init": "HSINIT"}[which])
+
+        def exponent(self, node, pos, env):
+            """'now' / 'old' / 'init' / None: which heap size does 1 << node stand for at position pos"""
+            n = strip(node, casts=True)
+            if n["kind"] == "DeclRefExpr" and n["ref"]["id"] in env:
+                return env[n["ref"]["id"]][1]
+            if n["kind"] == "DeclRefExpr" and n["ref"].get("kind") == "VarDecl":
+                d = self.cx.single_def(n["ref"]["id"])
+                if d is not None:
+                    decl = [x for x in walk(self.f.body) if x["kind"] == "VarDecl" and x["id"] == n["ref"]["id"]]
+                    return self.exponent(d, self.pos_of(decl[0]) if decl else pos, env)
+            c = self.cx.canon(n)
+            if c == "%s->heap_exp_init" % self.hp:
+                return "now" if (self.is_init and any(self.cx.canon(l) == c for l, r_, k_, n_ in inv.stores(self.f))) else "init"
+            if c == "%s->heap_exp_cur" % self.hp or (self.is_init and c in self.exp_params):
+                if self.is_init:
+                    return "now"
+                if self.i_exp is None or pos > self.i_exp:
+                    return "now"
+                return "old"
+            return None
+
+        def ev(self, node, pos=None, env=None):
+            env = env or {}
+            n = strip(node, casts=True)
+            if pos is None:
+                pos = self.pos_of(node)
+            k = n["kind"]
+            if k == "IntegerLiteral":
+                return Poly.const(int(n["value"]))
+            if k == "UnaryExprOrTypeTraitExpr":
+                t = n.get("argType")
+                if not t and kids(n):
+                    t = strip(kids(n)[0], casts=True).get("type")
+                return Poly.sym("sizeof(%s)" % (t or "?").replace("const ", ""))
+            if k == "DeclRefExpr":
+                if n["ref"]["id"] in env:
+                    return env[n["ref"]["id"]][0]
+                d = self.cx.single_def(n["ref"]["id"])
+                if d is not None:
+                    decl = [x for x in walk(self.f.body) if x["kind"] == "VarDecl" and x["id"] == n["ref"]["id"]]
+                    return self.ev(d, self.pos_of(decl[0]) if decl else pos, env)
+                return None
+            if k == "MemberExpr":
+                c = self.cx.canon(n)
+                if c == "%s->heap_size" % self.hp:
+                    return self.size_atom("now" if (self.i_hs is None or pos > self.i_hs) else "old")
+                if c == "%s->hash_size" % self.hp:
+                    return self.size_atom("now" if (self.i_hash is None or pos > self.i_hash) else "old").scale(2)
+                return None
+            if k == "BinaryOperator":
+                op = n["opcode"]
+                if op == "<<":
+                    a = self.ev(kids(n)[0], pos, env)
+                    e = self.exponent(kids(n)[1], pos, env)
+                    if a is None or e is None or not a.is_const():
+                        return None
+                    return self.size_atom(e).scale(a.get((), 0))
+                a, b = self.ev(kids(n)[0], pos, env), self.ev(kids(n)[1], pos, env)
+                if a is None or b is None:
+                    return None
+                if op == "+":
+                    return a + b
+                if op == "-":
+                    return a - b
+                if op == "*":
+                    return a * b
+                return None
+            if k == "CallExpr" and callee_ref(n):
+                cf = m.funcs.get(m.resolve(self.f.unit, callee_ref(n)))
+                if cf is not None and cf.static:
+                    rets = [x for x in walk(cf.body) if x["kind"] == "ReturnStmt" and kids(x)]
+                    if len(rets) == 1 and all(is_assert_stmt(s_) or s_ is rets[0] for s_ in kids(cf.body)):
+                        sub = SizeEval.__new__(SizeEval)
+                        sub.__dict__.update(self.__dict__)
+                        env2 = {}
+                        for prm, arg in zip(cf.params, kids(n)[1:]):
+                            env2[prm["id"]] = (self.ev(arg, pos, env), self.exponent(arg, pos, env))
+                        sub.cx = FuncCtx(m, cf)
+                        sub_ev = self._ev_in(cf, kids(rets[0])[0], env2)
+                        return sub_ev
+                return None
+            return None
+
+        def _ev_in(self, cf, node, env2):
+            """evaluate a helper's return expression: only parameters, literals, sizeof and arithmetic"""
+            n = strip(node, casts=True)
+            k = n["kind"]
+            if k == "IntegerLiteral":
+                return Poly.const(int(n["value"]))
+            if k == "UnaryExprOrTypeTraitExpr":
+                return Poly.sym("sizeof(%s)" % (n.get("argType") or "?").replace("const ", ""))
+            if k == "DeclRefExpr":
+                v = env2.get(n["ref"]["id"])
+                return v[0] if v else None
+            if k == "BinaryOperator":
+                op = n["opcode"]
+                if op == "<<":
+                    a = self._ev_in(cf, kids(n)[0], env2)
+                    e0 = strip(kids(n)[1], casts=True)
+                    e = env2.get(e0["ref"]["id"], (None, None))[1] if e0["kind"] == "DeclRefExpr" else None
+                    if a is None or e is None or not a.is_const():
+                        return None
+                    return self.size_atom(e).scale(a.get((), 0))
+                a, b = self._ev_in(cf, kids(n)[0], env2), self._ev_in(cf, kids(n)[1], env2)
+                if a is None or b is None:
+                    return None
+                return a + b if op == "+" else a - b if op == "-" else a * b if op == "*" else None
+            return None
+
+        def subexprs(self, node, depth=0):
+            """node and, through single-definition locals, everything it is built from"""
+            n = strip(node, casts=True)
+            yield n
+            if depth > 8:
+                return
+            if n["kind"] == "DeclRefExpr":
+                d = self.cx.single_def(n["ref"]["id"])
+                if d is not None:
+                    yield from self.subexprs(d, depth + 1)
+                return
+            for c_ in kids(n):
+                yield from self.subexprs(c_, depth + 1)
+
+    HS, SH, SM = Poly.sym("HS"), Poly.sym(HEAP_T), Poly.sym(HASH_T)
+    heap_part = (HS + Poly.const(2)) * SH
+    hash_part = HS.scale(2) * SM
+    for fn in (("cmi_hashheap_clear",) if clear_only else ("cmi_hashheap_initialize", "hashheap_grow", "cmi_hashheap_clear")):
+        f = hh[fn]
+        se = SizeEval(f)
+        cx = se.cx
+        hpn = se.hp
+        def polys_of(node):
+            out = []
+            for x in se.subexprs(node):
+                pv = se.ev(x)
+                if pv is not None:
+                    out.append(pv)
+            return out
+        if fn == "cmi_hashheap_clear":
+            # clearing must wipe the whole hash map (stale entries would resurrect removed keys): either one wipe
+            # from the heap start over heap part + hash part, or a wipe of the hash map with the hash part's size
+            wipes = [(cx.canon(kids(x)[1]), se.ev(kids(x)[-1]), x) for x in walk(f.body)
+                     if x["kind"] == "CallExpr" and callee_ref(x) == "cmi_memset"]
+            r5.instance("%s wipes: %s" % (fn, [(d_, p_.show() if p_ is not None else None) for d_, p_, x in wipes]))
+            rep.sample({"rule": "R-C02-5", "function": fn, "wipes": [(d_, p_.show() if p_ is not None else None) for d_, p_, x in wipes]})
+            okc = False
+            for dst, sz, x in wipes:
+                if sz is None:
+                    continue
+                if dst == hpn + "->heap" and sz == heap_part + hash_part:
+                    okc = True
+                if dst == hpn + "->hash_map" and sz == hash_part:
+                    okc = True
+            if not okc:
+                rep.finding(r5, fn, "clear:hash-map", "clear does not wipe the whole hash map of the current size (wipes: %s; the "
+                            "layout is %s heap bytes + %s hash bytes): keys removed by the clear would still be found" %
+                            ([(d_, p_.show() if p_ is not None else "?") for d_, p_, x in wipes], heap_part.show(), hash_part.show()),
+                            where=m.rel(f.where))
+                r5.fail()
+            else:
+                r5.ok()
+            continue
+        allocs = [x for x in walk(f.body) if x["kind"] == "CallExpr" and callee_ref(x) == "cmi_aligned_alloc"]
+        if len(allocs) != 1:
+            raise AnalysisBroken("%s: expected one aligned allocation" % fn)
+        ps = polys_of(kids(allocs[0])[-1])
+        r5.instance("%s allocates a page-rounded %s" % (fn, sorted({p_.show() for p_ in ps if len(p_) > 1})[:3]))
+        rep.sample({"rule": "R-C02-5", "function": fn, "footprint_terms": sorted({p_.show() for p_ in ps})[:6]})
+        if heap_part + hash_part not in ps:
+            kind = "layout:heap-part" if not any(p_ == heap_part for p_ in ps) else "layout:hash-part"
+            rep.finding(r5, fn, kind, "%s does not allocate (heap_size + 2) heap tags plus 2 * heap_size hash tags (quantities "
+                        "it rounds up to pages: %s)" % (fn, sorted({p_.show() for p_ in ps})[:5]), where=m.rel(f.where))
+            r5.fail()
+        else:
+            r5.ok()
+        # the hash map starts right after the heap part of the new area
+        hm = [r_ for l, r_, k_, n_ in inv.stores(f) if cx.canon(l) == hpn + "->hash_map" and r_ is not None]
+        good = False
+        for r_ in hm:
+            e = cx.resolve(r_)
+            e = strip(e, casts=True)
+            if e["kind"] == "BinaryOperator" and e.get("opcode") == "+":
+                base, off = kids(e)[0], kids(e)[1]
+                bt = (strip(base, casts=True).get("type") or "")
+                esz = Poly.const(1) if "char" in bt else (SH if "cmi_heap_tag" in bt else None)
+                ov = se.ev(off)
+                if ov is not None and esz is not None and ov * esz == heap_part:
+                    good = True
+            if e["kind"] == "UnaryOperator" and e.get("opcode") == "&":
+                a_ = strip(kids(e)[0], casts=True)
+                if a_["kind"] == "ArraySubscriptExpr" and "cmi_heap_tag" in (strip(kids(a_)[0], casts=True).get("type") or ""):
+                    ov = se.ev(kids(a_)[1])
+                    if ov is not None and ov * SH == heap_part:
+                        good = True
+        if not good:
+            rep.finding(r5, fn, "layout:hash-start", "%s places the hash map at %s, not right after the (heap_size + 2) tags of "
+                        "the heap part" % (fn, [cx.canon(r_)[:120] for r_ in hm]), where=m.rel(f.where))
+            r5.fail()
+        else:
+            r5.ok()
+    if clear_only:
+        return
+    # grow copies the old heap part including scratch slots and rehashes from the old map before freeing it
+    gcalls = [(callee_ref(x), [gcx.canon(a) for a in kids(x)[1:]]) for x in walk(g.body) if x["kind"] == "CallExpr"]
+    names = [c for c, _ in gcalls]
+    if not ("cmi_memcpy" in names and "hash_rehash" in names and "cmi_aligned_free" in names and
+            names.index("hash_rehash") < names.index("cmi_aligned_free") and
+            names.index("cmi_memcpy") < names.index("cmi_aligned_free")):
+        rep.finding(r5, g.name, "grow:order", "grow must copy the heap and rehash from the old map before freeing the "
+                    "old storage (calls: %s)" % names, where=m.rel(g.where))
+        r5.fail()
+    else:
+        r5.ok()
+    # the copy covers (old heap_size + 2) tags: evaluated with the sizes as they were before this call's update
+    gse = SizeEval(g)
+    cpn = [x for x in walk(g.body) if x["kind"] == "CallExpr" and callee_ref(x) == "cmi_memcpy"]
+    cps = gse.ev(kids(cpn[0])[3]) if cpn else None
+    r5.instance("grow copies %s bytes of the old heap" % (cps.show() if cps is not None else None))
+    if cps is None or cps != (Poly.sym("HS0") + Poly.const(2)) * SH:
+        rep.finding(r5, g.name, "grow:copy-size", "grow copies %s bytes; the old heap part is (old heap_size + 2) tags" %
+                    (cps.show() if cps is not None else "an amount that is not understood"), where=m.rel(g.where))
+        r5.fail()
+    else:
+        r5.ok()
+
+
+
 def rules(rep, m):
     hh = {f.name: f for f in m.funcs.values() if m.rel(f.file) == UNIT}
     for need in ("cmi_hashheap_enqueue", "cmi_hashheap_dequeue", "cmi_hashheap_remove", "heap_up", "heap_down",
@@ -363,255 +622,7 @@ def rules(rep, m):
                   "sizes are compared as polynomials over the current / previous / initial heap size (1 << exponent is the "
                   "size that exponent stands for at that program point, helper functions are inlined), not as text",
                   floor=3)
-    from ..engines.induct import Poly
-    HEAP_T, HASH_T = "sizeof(struct cmi_heap_tag)", "sizeof(struct cmi_hash_tag)"
-
-    class SizeEval:
-        """Byte/element counts as polynomials over HS (heap size now), HS0 (before this function's update), HSINIT."""
-
-        def __init__(self, f):
-            self.f, self.cx, self.hp = f, FuncCtx(m, f), f.params[0]["name"]
-            self.top = kids(f.body)
-            def store_idx(field):
-                idx = [inv.stmt_index_containing(f, n_) for l, r_, k_, n_ in inv.stores(f)
-                       if self.cx.canon(l) == "%s->%s" % (self.hp, field)]
-                idx = [i for i in idx if i is not None]
-                return min(idx) if idx else None
-            self.i_exp, self.i_hs, self.i_hash = store_idx("heap_exp_cur"), store_idx("heap_size"), store_idx("hash_size")
-            # in initialize the exponent parameter becomes the current exponent
-            self.exp_params = {self.cx.canon(r_) for l, r_, k_, n_ in inv.stores(f)
-                               if r_ is not None and self.cx.canon(l) == "%s->heap_exp_cur" % self.hp and k_ == "="}
-            self.is_init = any(k_ == "=" for l, r_, k_, n_ in inv.stores(f) if self.cx.canon(l) == "%s->heap_exp_cur" % self.hp)
-
-        def pos_of(self, node):
-            i = inv.stmt_index_containing(self.f, node)
-            return i if i is not None else 10 ** 6
-
-        def size_atom(self, which):
-            return Poly.sym({"now": "HS", "old": "HS0", "init": "HSINIT"}[which])
-
-        def exponent(self, node, pos, env):
-            """'now' / 'old' / 'init' / None: which heap size does 1 << node stand for at position pos"""
-            n = strip(node, casts=True)
-            if n["kind"] == "DeclRefExpr" and n["ref"]["id"] in env:
-                return env[n["ref"]["id"]][1]
-            if n["kind"] == "DeclRefExpr" and n["ref"].get("kind") == "VarDecl":
-                d = self.cx.single_def(n["ref"]["id"])
-                if d is not None:
-                    decl = [x for x in walk(self.f.body) if x["kind"] == "VarDecl" and x["id"] == n["ref"]["id"]]
-                    return self.exponent(d, self.pos_of(decl[0]) if decl else pos, env)
-            c = self.cx.canon(n)
-            if c == "%s->heap_exp_init" % self.hp:
-                return "now" if (self.is_init and any(self.cx.canon(l) == c for l, r_, k_, n_ in inv.stores(self.f))) else "init"
-            if c == "%s->heap_exp_cur" % self.hp or (self.is_init and c in self.exp_params):
-                if self.is_init:
-                    return "now"
-                if self.i_exp is None or pos > self.i_exp:
-                    return "now"
-                return "old"
-            return None
-
-        def ev(self, node, pos=None, env=None):
-            env = env or {}
-            n = strip(node, casts=True)
-            if pos is None:
-                pos = self.pos_of(node)
-            k = n["kind"]
-            if k == "IntegerLiteral":
-                return Poly.const(int(n["value"]))
-            if k == "UnaryExprOrTypeTraitExpr":
-                t = n.get("argType")
-                if not t and kids(n):
-                    t = strip(kids(n)[0], casts=True).get("type")
-                return Poly.sym("sizeof(%s)" % (t or "?").replace("const ", ""))
-            if k == "DeclRefExpr":
-                if n["ref"]["id"] in env:
-                    return env[n["ref"]["id"]][0]
-                d = self.cx.single_def(n["ref"]["id"])
-                if d is not None:
-                    decl = [x for x in walk(self.f.body) if x["kind"] == "VarDecl" and x["id"] == n["ref"]["id"]]
-                    return self.ev(d, self.pos_of(decl[0]) if decl else pos, env)
-                return None
-            if k == "MemberExpr":
-                c = self.cx.canon(n)
-                if c == "%s->heap_size" % self.hp:
-                    return self.size_atom("now" if (self.i_hs is None or pos > self.i_hs) else "old")
-                if c == "%s->hash_size" % self.hp:
-                    return self.size_atom("now" if (self.i_hash is None or pos > self.i_hash) else "old").scale(2)
-                return None
-            if k == "BinaryOperator":
-                op = n["opcode"]
-                if op == "<<":
-                    a = self.ev(kids(n)[0], pos, env)
-                    e = self.exponent(kids(n)[1], pos, env)
-                    if a is None or e is None or not a.is_const():
-                        return None
-                    return self.size_atom(e).scale(a.get((), 0))
-                a, b = self.ev(kids(n)[0], pos, env), self.ev(kids(n)[1], pos, env)
-                if a is None or b is None:
-                    return None
-                if op == "+":
-                    return a + b
-                if op == "-":
-                    return a - b
-                if op == "*":
-                    return a * b
-                return None
-            if k == "CallExpr" and callee_ref(n):
-                cf = m.funcs.get(m.resolve(self.f.unit, callee_ref(n)))
-                if cf is not None and cf.static:
-                    rets = [x for x in walk(cf.body) if x["kind"] == "ReturnStmt" and kids(x)]
-                    if len(rets) == 1 and all(is_assert_stmt(s_) or s_ is rets[0] for s_ in kids(cf.body)):
-                        sub = SizeEval.__new__(SizeEval)
-                        sub.__dict__.update(self.__dict__)
-                        env2 = {}
-                        for prm, arg in zip(cf.params, kids(n)[1:]):
-                            env2[prm["id"]] = (self.ev(arg, pos, env), self.exponent(arg, pos, env))
-                        sub.cx = FuncCtx(m, cf)
-                        sub_ev = self._ev_in(cf, kids(rets[0])[0], env2)
-                        return sub_ev
-                return None
-            return None
-
-        def _ev_in(self, cf, node, env2):
-            """evaluate a helper's return expression: only parameters, literals, sizeof and arithmetic"""
-            n = strip(node, casts=True)
-            k = n["kind"]
-            if k == "IntegerLiteral":
-                return Poly.const(int(n["value"]))
-            if k == "UnaryExprOrTypeTraitExpr":
-                return Poly.sym("sizeof(%s)" % (n.get("argType") or "?").replace("const ", ""))
-            if k == "DeclRefExpr":
-                v = env2.get(n["ref"]["id"])
-                return v[0] if v else None
-            if k == "BinaryOperator":
-                op = n["opcode"]
-                if op == "<<":
-                    a = self._ev_in(cf, kids(n)[0], env2)
-                    e0 = strip(kids(n)[1], casts=True)
-                    e = env2.get(e0["ref"]["id"], (None, None))[1] if e0["kind"] == "DeclRefExpr" else None
-                    if a is None or e is None or not a.is_const():
-                        return None
-                    return self.size_atom(e).scale(a.get((), 0))
-                a, b = self._ev_in(cf, kids(n)[0], env2), self._ev_in(cf, kids(n)[1], env2)
-                if a is None or b is None:
-                    return None
-                return a + b if op == "+" else a - b if op == "-" else a * b if op == "*" else None
-            return None
-
-        def subexprs(self, node, depth=0):
-            """node and, through single-definition locals, everything it is built from"""
-            n = strip(node, casts=True)
-            yield n
-            if depth > 8:
-                return
-            if n["kind"] == "DeclRefExpr":
-                d = self.cx.single_def(n["ref"]["id"])
-                if d is not None:
-                    yield from self.subexprs(d, depth + 1)
-                return
-            for c_ in kids(n):
-                yield from self.subexprs(c_, depth + 1)
-
-    HS, SH, SM = Poly.sym("HS"), Poly.sym(HEAP_T), Poly.sym(HASH_T)
-    heap_part = (HS + Poly.const(2)) * SH
-    hash_part = HS.scale(2) * SM
-    for fn in ("cmi_hashheap_initialize", "hashheap_grow", "cmi_hashheap_clear"):
-        f = hh[fn]
-        se = SizeEval(f)
-        cx = se.cx
-        hpn = se.hp
-        def polys_of(node):
-            out = []
-            for x in se.subexprs(node):
-                pv = se.ev(x)
-                if pv is not None:
-                    out.append(pv)
-            return out
-        if fn == "cmi_hashheap_clear":
-            # clearing must wipe the whole hash map (stale entries would resurrect removed keys): either one wipe
-            # from the heap start over heap part + hash part, or a wipe of the hash map with the hash part's size
-            wipes = [(cx.canon(kids(x)[1]), se.ev(kids(x)[-1]), x) for x in walk(f.body)
-                     if x["kind"] == "CallExpr" and callee_ref(x) == "cmi_memset"]
-            r5.instance("%s wipes: %s" % (fn, [(d_, p_.show() if p_ is not None else None) for d_, p_, x in wipes]))
-            rep.sample({"rule": "R-C02-5", "function": fn, "wipes": [(d_, p_.show() if p_ is not None else None) for d_, p_, x in wipes]})
-            okc = False
-            for dst, sz, x in wipes:
-                if sz is None:
-                    continue
-                if dst == hpn + "->heap" and sz == heap_part + hash_part:
-                    okc = True
-                if dst == hpn + "->hash_map" and sz == hash_part:
-                    okc = True
-            if not okc:
-                rep.finding(r5, fn, "clear:hash-map", "clear does not wipe the whole hash map of the current size (wipes: %s; the "
-                            "layout is %s heap bytes + %s hash bytes): keys removed by the clear would still be found" %
-                            ([(d_, p_.show() if p_ is not None else "?") for d_, p_, x in wipes], heap_part.show(), hash_part.show()),
-                            where=m.rel(f.where))
-                r5.fail()
-            else:
-                r5.ok()
-            continue
-        allocs = [x for x in walk(f.body) if x["kind"] == "CallExpr" and callee_ref(x) == "cmi_aligned_alloc"]
-        if len(allocs) != 1:
-            raise AnalysisBroken("%s: expected one aligned allocation" % fn)
-        ps = polys_of(kids(allocs[0])[-1])
-        r5.instance("%s allocates a page-rounded %s" % (fn, sorted({p_.show() for p_ in ps if len(p_) > 1})[:3]))
-        rep.sample({"rule": "R-C02-5", "function": fn, "footprint_terms": sorted({p_.show() for p_ in ps})[:6]})
-        if heap_part + hash_part not in ps:
-            kind = "layout:heap-part" if not any(p_ == heap_part for p_ in ps) else "layout:hash-part"
-            rep.finding(r5, fn, kind, "%s does not allocate (heap_size + 2) heap tags plus 2 * heap_size hash tags (quantities "
-                        "it rounds up to pages: %s)" % (fn, sorted({p_.show() for p_ in ps})[:5]), where=m.rel(f.where))
-            r5.fail()
-        else:
-            r5.ok()
-        # the hash map starts right after the heap part of the new area
-        hm = [r_ for l, r_, k_, n_ in inv.stores(f) if cx.canon(l) == hpn + "->hash_map" and r_ is not None]
-        good = False
-        for r_ in hm:
-            e = cx.resolve(r_)
-            e = strip(e, casts=True)
-            if e["kind"] == "BinaryOperator" and e.get("opcode") == "+":
-                base, off = kids(e)[0], kids(e)[1]
-                bt = (strip(base, casts=True).get("type") or "")
-                esz = Poly.const(1) if "char" in bt else (SH if "cmi_heap_tag" in bt else None)
-                ov = se.ev(off)
-                if ov is not None and esz is not None and ov * esz == heap_part:
-                    good = True
-            if e["kind"] == "UnaryOperator" and e.get("opcode") == "&":
-                a_ = strip(kids(e)[0], casts=True)
-                if a_["kind"] == "ArraySubscriptExpr" and "cmi_heap_tag" in (strip(kids(a_)[0], casts=True).get("type") or ""):
-                    ov = se.ev(kids(a_)[1])
-                    if ov is not None and ov * SH == heap_part:
-                        good = True
-        if not good:
-            rep.finding(r5, fn, "layout:hash-start", "%s places the hash map at %s, not right after the (heap_size + 2) tags of "
-                        "the heap part" % (fn, [cx.canon(r_)[:120] for r_ in hm]), where=m.rel(f.where))
-            r5.fail()
-        else:
-            r5.ok()
-    # grow copies the old heap part including scratch slots and rehashes from the old map before freeing it
-    gcalls = [(callee_ref(x), [gcx.canon(a) for a in kids(x)[1:]]) for x in walk(g.body) if x["kind"] == "CallExpr"]
-    names = [c for c, _ in gcalls]
-    if not ("cmi_memcpy" in names and "hash_rehash" in names and "cmi_aligned_free" in names and
-            names.index("hash_rehash") < names.index("cmi_aligned_free") and
-            names.index("cmi_memcpy") < names.index("cmi_aligned_free")):
-        rep.finding(r5, g.name, "grow:order", "grow must copy the heap and rehash from the old map before freeing the "
-                    "old storage (calls: %s)" % names, where=m.rel(g.where))
-        r5.fail()
-    else:
-        r5.ok()
-    # the copy covers (old heap_size + 2) tags: evaluated with the sizes as they were before this call's update
-    gse = SizeEval(g)
-    cpn = [x for x in walk(g.body) if x["kind"] == "CallExpr" and callee_ref(x) == "cmi_memcpy"]
-    cps = gse.ev(kids(cpn[0])[3]) if cpn else None
-    r5.instance("grow copies %s bytes of the old heap" % (cps.show() if cps is not None else None))
-    if cps is None or cps != (Poly.sym("HS0") + Poly.const(2)) * SH:
-        rep.finding(r5, g.name, "grow:copy-size", "grow copies %s bytes; the old heap part is (old heap_size + 2) tags" %
-                    (cps.show() if cps is not None else "an amount that is not understood"), where=m.rel(g.where))
-        r5.fail()
-    else:
-        r5.ok()
+    layout_rules(rep, r5, m)
 
     # R-C02-6 ------------------------------------------------------------
     r6 = rep.rule("R-C02-6", "heap_count is written only by enqueue, dequeue, remove, clear and initialize; the "
@@ -727,6 +738,14 @@ def rules(rep, m):
                   "into the final hole - exhaustively over the children present and all orders of the tags involved", floor=6)
     from . import siftrules
     siftrules.check_sifts(rep, r8, m)
+
+
+    # R-C02-9 ------------------------------------------------------------
+    r9 = rep.rule("R-C02-9", "every loop that walks a heap array to find, count, sum or collect entries (pattern find / count / "
+                  "cancel, condition signal, queue position, holder sum) visits exactly the slots 1 .. heap_count, as an index "
+                  "loop or a pointer walk in either direction (first slot, step and last slot derived from initialiser, "
+                  "increment and guard)", floor=6)
+    siftrules.check_scans(rep, r9, m)
 
 
 def run(tier="quick"):
